@@ -403,7 +403,8 @@ impl<'a> IExec<'a> {
                     return;
                 }
             }
-            ctx.check(false, &["C04", "C05"], "inbound/conforming-delivery-refused", || format!("approved, well-formed hub message was refused: {}", res.out.err_text()));
+            let tags: &[&'static str] = if matches!(eff, Some(Eff::Deploy { .. })) { &["C04", "C11"] } else { &["C04", "C05"] };
+            ctx.check(false, tags, "inbound/conforming-delivery-refused", || format!("approved, well-formed hub message was refused: {}", res.out.err_text()));
             return;
         }
         // ---- effects of an executed delivery
